@@ -96,16 +96,21 @@ Inductive case :=
 (* CatalogPersistence::load of a file with these contents *)
 | LoadF (f : list Z) (l : load_out)
 (* a history of real DDL statements on a Database, then drop; the catalog file it left, load of
-   it, Database::open of the directory; schemas: user schemas the history created *)
-| Ddl (schemas : list str) (expect : list etab) (file : list Z) (l : load_out) (o : open_out)
+   it, Database::open of the directory; schemas: user schemas the history created; gone: schemas
+   the history dropped (and did not create again) *)
+| Ddl (schemas gone : list str) (expect : list etab) (file : list Z) (l : load_out) (o : open_out)
 (* one more DDL statement on a database whose catalog file was oldfile (old: the tables and
-   indexes in it that the statement does not itself drop), leaving file; inplace: the catalog
-   file kept its inode (rewritten in place) -- then obs n = first n bytes of file in place
-   (n = -1: oldfile); otherwise only n = -1 (old) and n = len (new) are crash states.
-   evs: the io_event hook calls (kind, a, b) the statement made for the path turdb.catalog
-   (4 create/truncate, 8 write at offset a of b bytes, 2 sync_all);
+   indexes in it that the statement does not itself drop), leaving file.
+   evs: the io_event hook calls (path, kind, a, b) the statement made for turdb.catalog (path 0)
+   and turdb.catalog.tmp (path 1): kind 4 create/truncate, 8 write at offset a of b bytes,
+   2 sync_all, 7 renamed onto this path.
+   inplace: the catalog file kept its inode, i.e. it was rewritten in place (the protocol before
+   /repo 5a0cf56) -- then observation n = the first n bytes of file in place of the catalog
+   (n = -1: oldfile).  Otherwise (temporary file + rename): n = -1 the old catalog and no
+   temporary file; 0 <= n <= len: the old catalog and a temporary file holding the first n bytes
+   of file; n > len: after the rename, file is the catalog.
    ORun lo hi p o: every n in lo..hi gave load outcome p and open outcome o *)
-| Crash (inplace : bool) (evs : list (Z * Z * Z)) (old : list tsum) (oldfile file : list Z) (obs : list orun).
+| Crash (inplace : bool) (evs : list (Z * Z * Z * Z)) (old : list tsum) (oldfile file : list Z) (obs : list orun).
 
 (* ------------------------------------------------------------------ model side *)
 Definition fnv_step (h b : Z) : Z := Z.land (Z.lxor h b * 1099511628211) 18446744073709551615.
@@ -139,27 +144,29 @@ Definition tsum_in (ts : list tsum) (t : tsum) : bool :=
 Definition tsums_sub (a b : list tsum) : bool := forallb (tsum_in b) a.
 Definition tsums_eq (a b : list tsum) : bool := tsums_sub a b && tsums_sub b a && (zlen a =? zlen b).
 
-(* the model's event list as the hook would report it *)
-Fixpoint ev_codes (off : Z) (p : list ev) : list (Z * Z * Z) :=
+(* the model's event list as the hook would report it (the directory fsync has no hook) *)
+Fixpoint ev_codes (off : Z) (p : list ev) : list (Z * Z * Z * Z) :=
   match p with
   | [] => []
-  | EvCreate _ :: r => (4, 0, 0) :: ev_codes 0 r
-  | EvWrite _ d :: r => (8, off, zlen d) :: ev_codes (off + zlen d) r
-  | EvSync _ :: r => (2, 0, 0) :: ev_codes off r
-  | EvRename _ _ :: r => ev_codes off r
+  | EvCreate q :: r => (q, 4, 0, 0) :: ev_codes 0 r
+  | EvWrite q d :: r => (q, 8, off, zlen d) :: ev_codes (off + zlen d) r
+  | EvSync q :: r => (q, 2, 0, 0) :: ev_codes off r
+  | EvRename _ q :: r => (q, 7, 0, 0) :: ev_codes off r
   | EvSyncDir :: r => ev_codes off r
   end.
-Definition zzz_eqb (a b : Z * Z * Z) : bool :=
-  match a, b with (x, y, z), (x', y', z') => (x =? x') && (y =? y') && (z =? z') end.
+Definition zzzz_eqb (a b : Z * Z * Z * Z) : bool :=
+  match a, b with (w, x, y, z), (w', x', y', z') => (w =? w') && (x =? x') && (y =? y') && (z =? z') end.
 
-Definition crash_point (inplace : bool) (n : Z) : nat * nat :=
-  if n <? 0 then (0%nat, 0%nat) else if inplace then prefix_point n else (6%nat, 0%nat).
+Definition crash_point (inplace : bool) (flen n : Z) : nat * nat :=
+  if n <? 0 then (0%nat, 0%nat)
+  else if inplace then prefix_point n
+  else if n <=? flen then prefix_point n else (6%nat, 0%nat).
 Definition crash_prog (inplace : bool) (file : list Z) : list ev :=
   if inplace then save_inplace (firstn 128 file) (skipn 128 file)
   else save_atomic (firstn 128 file) (skipn 128 file).
 (* the model's catalog after a crash at the point that leaves observation n *)
 Definition crash_load (inplace : bool) (oldfile file : list Z) (n : Z) : res catalog :=
-  let '(k, j) := crash_point inplace n in
+  let '(k, j) := crash_point inplace (zlen file) n in
   load_view (kill_view (run_to (crash_prog inplace file) k j (init_fs oldfile None)) p_catalog).
 Definition pout_eq (r : res catalog) (p : pout) : bool :=
   match r, p with
@@ -178,10 +185,10 @@ Definition model_agrees (c : case) : bool :=
       end
   | Dec bs l => load_eq (deserialize bs base_catalog) l
   | LoadF f l => load_eq (load_file f) l
-  | Ddl _ _ file l o => load_eq (load_file file) l && open_agrees (load_file file) o
+  | Ddl _ _ _ file l o => load_eq (load_file file) l && open_agrees (load_file file) o
   | Crash inplace evs old oldfile file obs =>
-      (* in place: the statement issued exactly the model's events on the live catalog file *)
-      (if inplace then list_eqb zzz_eqb evs (ev_codes 0 (crash_prog true file)) else true) &&
+      (* the statement issued exactly the model's events on the catalog / the temporary file *)
+      list_eqb zzzz_eqb evs (ev_codes 0 (crash_prog inplace file)) &&
       forallb (fun ob => match ob with (n, p, o) =>
                  let r := crash_load inplace oldfile file n in pout_eq r p && open_agrees r o end) (expand_obs obs)
   end.
@@ -214,27 +221,31 @@ Definition spec_ok (c : case) : bool :=
         match codec_loaded cat l with LOk c' => (sflag =? 0) && cat_eqb cat c' | _ => false end
       else true
   | Dec _ _ | LoadF _ _ => true             (* malformed input is C23's subject; here only model vs code *)
-  | Ddl schemas expect file l o =>
+  | Ddl schemas gone expect file l o =>
       match l, o with
       | LOk c', OOk m => (m =? 0) && forallb (etab_ok c') expect
                          && forallb (fun s => match find_schema c' s with Some _ => true | None => false end) schemas
+                         && forallb (fun s => match find_schema c' s with Some _ => false | None => true end) gone
       | _, _ => false
       end
   | Crash inplace evs old oldfile file obs => forallb (obs_ok old) (expand_obs obs)
   end.
 
 (* ------------------------------------------------------------------ known findings *)
-(* 1: the schema set is not the two built-in schemas (user schema: load fails; dropped "root":
-      it reappears)   2: an index with an expression column or a WHERE clause (both lost)
-   3: crash inside the in-place rewrite of the catalog file (load fails, the database does not open) *)
+(* 1: a built-in schema is missing from the catalog or has another id (DROP SCHEMA root): it is
+      back / has the built-in id again after a load
+   2: an index with an expression column or a WHERE clause (both lost)
+   3: (fixed, /repo 5a0cf56) crash inside the in-place rewrite of the catalog file
+   (the former class of F-C40-2, user schemas unloadable, is gone: fixed by /repo 0f25949) *)
 Definition etab_plain (e : etab) : bool :=
   forallb (fun i : eidx => negb (snd (fst i)) && negb (snd i)) (snd e).
 Definition known_class (c : case) : Z :=
   match c with
   | Codec cat _ _ _ _ _ => if wf_catalog cat then codec_class cat else 0
   | Dec _ _ | LoadF _ _ => 0
-  | Ddl schemas expect _ _ _ =>
-      match schemas with _ :: _ => 1 | [] => if forallb etab_plain expect then 0 else 2 end
+  | Ddl schemas gone expect _ _ _ =>
+      if existsb (fun g => str_eqb g name_root || str_eqb g name_syscat) gone then 1
+      else if forallb etab_plain expect then 0 else 2
   | Crash inplace evs old oldfile file obs =>
       (* only if every observation that fails the oracle is a crash point inside the rewrite *)
       let h := firstn 128 file in
